@@ -5,7 +5,7 @@ from hypothesis import strategies as st
 from vlib import genome as G, pipeline as P, vcfmodel as vm
 
 ID = "C04"
-RULE = ("A pipeline case (reference, well separated biallelic variants, true haplotypes, error-free reads) is decorated into "
+RULE = ("A pipeline case (reference, well separated biallelic variants, true haplotypes, reads error-free or with substitution errors at SNV sites) is decorated into "
         "a full-variety VCF: extra samples without reads, arbitrary INFO / FORMAT fields and FILTERs, ID and QUAL values, "
         "missing and partially missing GTs, unsorted unphased GTs ('1/0'), multi-ALT, symbolic and ALT-less records, "
         "duplicate positions, pre-existing phasing (PS, HP, PQ) on target and non-target samples; options --sample, "
@@ -29,6 +29,7 @@ def gen(draw):
     extra = ["x%d" % i for i in range(draw(st.integers(0, 2)))]
     order = draw(st.permutations(bam_samples + extra))
     info_defs = [d for d in vm.EXTRA_INFO if draw(st.booleans())]
+    case["read_noise"] = draw(st.integers(0, 10 ** 6)) if draw(st.integers(0, 2)) == 0 else None
     distrust = draw(st.integers(0, 4)) == 0
     # PL (phred genotype likelihoods) is read by the tool only when genotypes are distrusted
     fmt_extra = [d for d in vm.EXTRA_FORMAT if (d[0] != "PL" and draw(st.integers(0, 2)) == 0) or (d[0] == "PL" and distrust and draw(st.booleans()))]
@@ -169,6 +170,10 @@ class PassthroughPart:
         ref = G.write_fasta(case["contigs"], os.path.join(d, "ref.fa"))
         inp = vm.write_vcf(case["model"], os.path.join(d, "in.vcf"))
         reads = G.render_specs(case, case["read_specs"])
+        if case.get("read_noise") is not None:
+            from props.c16_determinism import noisy_reads
+            reads = noisy_reads(case, reads, case["read_noise"])
+            ctx.label("reads-with-errors")
         if not reads:
             return
         bam = G.write_bam(case, reads, os.path.join(d, "reads.bam"))
